@@ -72,6 +72,22 @@ def _row_builder(fi):
     for s in fn.body:
         if isinstance(s, ast.Assign) and isinstance(s.targets[0], ast.Name) and isinstance(s.value, ast.List) and len(s.value.elts) == 1 and isinstance(s.value.elts[0], ast.List):
             arr, header = s.targets[0].id, s.value.elts[0]
+    if header is None:
+        # [HEADER, *rows]  |  [HEADER] + rows   as the returned value (HEADER a list literal or a local bound to one)
+        def as_list(e):
+            if isinstance(e, ast.Name):
+                d_ = [s_.value for s_ in ast.walk(fn) if isinstance(s_, ast.Assign) and len(s_.targets) == 1 and isinstance(s_.targets[0], ast.Name) and s_.targets[0].id == e.id]
+                e = d_[0] if len(d_) == 1 else e
+            return e if isinstance(e, ast.List) else None
+
+        for r_ in [x for x in fn.body if isinstance(x, ast.Return) and x.value is not None]:
+            v = r_.value
+            if isinstance(v, ast.Name):
+                v = as_list(v) or v
+            if isinstance(v, ast.List) and len(v.elts) >= 1 and not isinstance(v.elts[0], ast.Starred):
+                header = as_list(v.elts[0])
+            elif isinstance(v, ast.BinOp) and isinstance(v.op, ast.Add) and isinstance(v.left, ast.List) and len(v.left.elts) == 1:
+                header = as_list(v.left.elts[0])
     loops = [n for n in fn.body if isinstance(n, ast.For)]
     if arr and len(loops) == 1:
         lp = loops[0]
@@ -374,7 +390,15 @@ def check(prog: Program, tier: str) -> Result:
         for s in ast.walk(node):
             if isinstance(s, ast.Assign) and isinstance(s.targets[0], ast.Tuple) and isinstance(s.value, ast.Call) and attr_chain(s.value.func) == "self.ghe_time_convert":
                 lab = ([e.id for e in s.targets[0].elts if isinstance(e, ast.Name)], ast.unparse(s.value.args[0]) if s.value.args else None, len(s.value.args) + len(s.value.keywords))
-        okr = lab is not None and lab[1] == iv and [ast.unparse(e) for e in row.elts] == lab[0] + [iv, lv]
+        row_width = len(row.elts)
+        if lab is None and row.elts and isinstance(row.elts[0], ast.Starred) and isinstance(row.elts[0].value, ast.Call) and attr_chain(row.elts[0].value.func) == "self.ghe_time_convert":
+            # [*self.ghe_time_convert(index), index, load]: the three labels spliced in
+            c_ = row.elts[0].value
+            lab = (["<month>", "<day>", "<hour>"], ast.unparse(c_.args[0]) if c_.args else None, len(c_.args) + len(c_.keywords))
+            okr = lab[1] == iv and [ast.unparse(e) for e in row.elts[1:]] == [iv, lv]
+            row_width = 3 + len(row.elts) - 1
+        else:
+            okr = lab is not None and lab[1] == iv and [ast.unparse(e) for e in row.elts] == lab[0] + [iv, lv]
         if lab is not None and lab[2] != 1:
             res.ob("R19.2", "the labels come from ghe_time_convert(index) alone - the non-leap calendar, whatever year the loads belong to", False, prog.loc(fi, row))
             res.violation("R19.2", f"loads-calendar|{lab[2]}-arguments", prog.loc(fi, row), q,
@@ -382,7 +406,7 @@ def check(prog: Program, tier: str) -> Result:
         res.ob("R19.2", f"each row = [month, day, hour] of ghe_time_convert(index), index, load ({ast.unparse(row)})", okr, prog.loc(fi, row))
         if not okr:
             res.violation("R19.2", f"loads-row|{ast.unparse(row)[:60]}", prog.loc(fi, row), q, f"a loads row is {ast.unparse(row)[:100]} with labels from ghe_time_convert({lab[1] if lab else '?'}); expected [month, day, hour, index, load] labelled by the row's own index")
-        okh = header is not None and len(header.elts) == len(row.elts)
+        okh = header is not None and len(header.elts) == row_width
         res.ob("R19.2", "header and rows have the same number of columns", okh, prog.loc(fi, header) if header is not None else prog.loc(fi, fi.node))
         if not okh:
             res.violation("R19.2", "loads-header-width", prog.loc(fi, fi.node), q, "header and rows of the loads table have different widths")
